@@ -14,7 +14,7 @@ DEFAULT_ASSUMPTIONS = [
 
 
 def weight(job):
-    w = {"bytes-exh": 10, "bytes-pbt": 6, "bytes-bitmaps": 5, "sub-exh": 12, "sub-pbt": 8, "pp-exh": 9, "pp-pbt": 7}
+    w = {"bytes-exh": 10, "bytes-pbt": 6, "bytes-bitmaps": 5, "sub-exh": 12, "sub-pbt": 8, "pp-exh": 9, "pp-pbt": 7, "steps": 9, "threads": 6}
     return w.get(job["stage"], 5) * (3 if job["config"].startswith("E-") else 1)
 
 
@@ -148,6 +148,105 @@ PLANS = {
                 "packed pair find of sse2/avx2/neon/simd128/checked vectors for haystacks >= min_haystack_len (default pair over these inputs; explicit "
                 "index pairs in the pp stages), each against naive find/rfind. Non-trivial as C03.",
         "stages": sub_stages(short=False) + pp_stages(),
+    },
+    "C05": {
+        "rule": "Every generator of C01-C12/C18 re-run with memory access as the only thing judged: (1) every haystack/needle is copied into an "
+                "mmap arena so that it ends exactly at, or starts exactly after, a PROT_NONE page (and at every alignment in between); a read past "
+                "the slice faults and the SIGSEGV handler attributes it to the journaled case; (2) the crate's generic vector algorithms run on "
+                "4/8-lane checked vectors and on emulated NEON/simd128 vectors whose every load is checked against the registered haystack region "
+                "and whose aligned loads are checked for alignment - exhaustively over alignment x length x match layout, all match bitmaps, all "
+                "small needle/pair/haystack combinations incl. haystacks below min_haystack_len (documented panic caught). "
+                "Non-trivial: the call performs at least one multi-byte load with an unaligned end or a placement against a guard page.",
+        "stages": [
+            {"name": "bytes-exh", "cmd": "bytes-exh", "configs": cfgs(NATIVE + EMU), "shards": shards(16, 16, 16, 16)},
+            {"name": "bytes-bitmaps", "cmd": "bytes-bitmaps", "configs": cfgs(["N-auto"] + EMU), "shards": shards(8, 16, 2, 4)},
+            {"name": "bytes-pbt", "cmd": "bytes-pbt", "configs": cfgs(NATIVE + EMU), "shards": shards(4, 16, 2, 8)},
+            {"name": "iter-pbt", "cmd": "iter-pbt", "configs": cfgs(NATIVE + EMU), "shards": shards(4, 8, 2, 4)},
+            {"name": "sub-exh", "cmd": "sub-exh", "configs": cfgs(["N-auto", "N-fb"] + EMU), "shards": shards(16, 16, 16, 16)},
+            {"name": "sub-pbt", "cmd": "sub-pbt", "configs": cfgs(NATIVE + EMU), "shards": shards(8, 16, 4, 8)},
+            {"name": "sub-phases", "cmd": "sub-phases", "configs": cfgs(NATIVE), "shards": shards(2, 8)},
+            {"name": "sub-short", "cmd": "sub-short", "configs": cfgs(NATIVE + ["E-neon", "E-wasm"]), "shards": shards(2, 8, 2, 4)},
+            {"name": "pp-exh", "cmd": "pp-exh", "configs": cfgs(["N-auto"] + EMU), "shards": shards(16, 16, 16, 16)},
+            {"name": "pp-pbt", "cmd": "pp-pbt", "configs": cfgs(["N-auto", "E-neon", "E-wasm"]), "shards": shards(16, 16, 8, 16)},
+            {"name": "eq-exh", "cmd": "eq-exh", "configs": cfgs(["N-auto"]), "shards": shards(8, 16)},
+            {"name": "eq-pbt", "cmd": "eq-pbt", "configs": cfgs(["N-auto"]), "shards": shards(4, 8), "args": ["--scale", "4"]},
+        ],
+    },
+    "C10": {
+        "rule": SUB_GEN + "Each generated (needle, haystack) is searched by finders built with Prefilter::None and Prefilter::Auto x 8 rankers (default, constant 0, "
+                "constant 255, identity, reversed, generated table, needle-bytes-most-common, stateful): find and the complete find_iter sequence must equal "
+                "the naive answer in every configuration (hence each other). The phase generator aims the false-candidate stretch at the pair the selected "
+                "ranker picks, so the adaptive prefilter goes inert for that configuration. Non-trivial: at least two rankers select different pairs and the needle occurs.",
+        "stages": [
+            {"name": "c10", "cmd": "c10", "configs": cfgs(NATIVE + EMU), "shards": shards(16, 16, 8, 8), "args": ["--scale", "5"]},
+            {"name": "c10-phases", "cmd": "c10-phases", "configs": cfgs(NATIVE + EMU), "shards": shards(16, 16, 8, 8), "args": ["--scale", "5"]},
+        ],
+    },
+    "C13": {
+        "rule": "The hook's step counter is read around (build finder + operation) for find, rfind, complete find_iter / rfind_iter traversals and the one-shot "
+                "functions on 12 adversarial families (a^(m-1)b in (a^(m-1)c)^r and in a^n, a^m in (a^(m-1)b)^r, needles > 255 bytes over two common bytes, "
+                "periodic needles in near-periods, pair bytes recurring everywhere, Fibonacci, Thue-Morse, quiet prefix then dense false candidates, empty "
+                "needle, (ab)^k c in (ab)^r, random binary) at n in {256..256 Ki (1 Mi scaled)}, m in 2..=1024 (4096 scaled), plus every binary needle <= 7 x "
+                "haystack <= 12. Oracles: steps <= 96*(n+m)+8192, and steps(4n,4m) <= 8*steps(n,m) for needles >= 65 bytes on families traversed completely "
+                "(linear gives 4, quadratic 16). Non-trivial: n >= 4096.",
+        "stages": [
+            {"name": "steps", "cmd": "steps", "configs": cfgs(NATIVE), "shards": shards(16, 16), "args": ["--scale", "12"]},
+            {"name": "steps-exh", "cmd": "steps-exh", "configs": cfgs(NATIVE), "shards": shards(4, 8)},
+        ],
+        "assumptions": DEFAULT_ASSUMPTIONS + ["the step counter only sees loops that carry a tick (all loops of the substring search code do); constant-factor slowdowns are by definition not violations"],
+    },
+    "C14": {
+        "rule": "Union of the generators of C01-C12, C18, C19 executed in builds with debug assertions and overflow checks (native at three CPU levels, "
+                "emulated NEON/simd128/no-SIMD): any unwind from a top-level function, iterator, finder method or in-domain low-level searcher is a violation, "
+                "as is SIGABRT/SIGILL/SIGSEGV (crash journal). Documented panic: for every packed-pair finder type and generated (needle, pair), haystack "
+                "lengths on both sides of min_haystack_len (min-2 .. min+1 for every vector width, and 0): find and find_prefilter must panic iff len < min. "
+                "Values are not judged here. Non-trivial: haystack of at least one vector, needle >= 2 with haystack >= 16, or a length within 2 of the boundary.",
+        "stages": [
+            {"name": "bytes-exh", "cmd": "bytes-exh", "configs": cfgs(NATIVE + EMU), "shards": shards(16, 16, 8, 16)},
+            {"name": "bytes-pbt", "cmd": "bytes-pbt", "configs": cfgs(NATIVE + EMU), "shards": shards(4, 16, 2, 8)},
+            {"name": "iter-pbt", "cmd": "iter-pbt", "configs": cfgs(NATIVE + EMU), "shards": shards(4, 8, 2, 4)},
+            {"name": "sub-exh", "cmd": "sub-exh", "configs": cfgs(["N-auto", "N-fb"] + EMU), "shards": shards(16, 16, 16, 16)},
+            {"name": "sub-pbt", "cmd": "sub-pbt", "configs": cfgs(NATIVE + EMU), "shards": shards(8, 16, 4, 8)},
+            {"name": "sub-phases", "cmd": "sub-phases", "configs": cfgs(NATIVE + EMU), "shards": shards(2, 8, 2, 4)},
+            {"name": "sub-short", "cmd": "sub-short", "configs": cfgs(NATIVE + EMU), "shards": shards(2, 8, 2, 4)},
+            {"name": "pp-exh", "cmd": "pp-exh", "configs": cfgs(["N-auto"] + EMU), "shards": shards(16, 16, 16, 16)},
+            {"name": "pp-pbt", "cmd": "pp-pbt", "configs": cfgs(["N-auto", "E-neon", "E-wasm"]), "shards": shards(16, 16, 8, 16)},
+            {"name": "eq-pbt", "cmd": "eq-pbt", "configs": cfgs(["N-auto"]), "shards": shards(2, 8)},
+            {"name": "pair-pbt", "cmd": "pair-pbt", "configs": cfgs(["N-auto"]), "shards": shards(2, 8)},
+            {"name": "c10", "cmd": "c10", "configs": cfgs(["N-auto", "N-fb"]), "shards": shards(4, 8)},
+            {"name": "history", "cmd": "history", "configs": cfgs(["N-auto"]), "shards": shards(4, 8)},
+        ],
+    },
+    "C15": {
+        "rule": "proptest generates thread programs (2..=16 threads (32 thorough), 1..=6 operations each over the seven dispatched memchr routines, a shared "
+                "Finder / FinderRev, complete find_iter traversals, and memchr iterators advanced on one thread and handed to another through a channel); each "
+                "program runs in a FRESH mvexec process so the dispatch cache is uninitialised, all threads are released by a barrier and race to install the "
+                "implementation; every result is compared with the naive oracle computed before the threads start. Three forced CPU levels. "
+                "Non-trivial: >= 2 threads whose first operation is the same dispatched routine.",
+        "stages": [
+            {"name": "threads", "cmd": "threads", "configs": cfgs(NATIVE), "shards": shards(16, 16), "needs_mvexec": True, "args": ["--scale", "16"]},
+        ],
+        "assumptions": DEFAULT_ASSUMPTIONS + ["native interleavings are whatever the OS scheduler produces; only the Miri stage owns its schedule; nothing is exhaustive over schedules"],
+    },
+    "C16": {
+        "rule": "Model-based histories: op lists (<= 40 before, <= 30 after the needle buffer is overwritten with garbage and freed) over Find/Rfind on any of 3-7 "
+                "needle-derived haystacks (incl. one that exhausts the prefilter), StartIter/StartRevIter, Step, CloneFinder, AsRef, IntoOwned, CloneIter, "
+                "IntoOwnedIter, CheckNeedle. Model: every search equals naive_find/naive_rfind of that haystack whatever came before; clones and owned "
+                "conversions continue the greedy sequence at the same index; needle() equals the construction needle. The whole op vector shrinks as one value. "
+                "Non-trivial: >= 3 searches over >= 3 haystacks on one finder, or a clone/into_owned taken from a partially consumed iterator.",
+        "stages": [
+            {"name": "history", "cmd": "history", "configs": cfgs(NATIVE + EMU), "shards": shards(16, 16, 8, 8), "args": ["--scale", "6"]},
+        ],
+    },
+    "C17": {
+        "rule": "A counting #[global_allocator] is armed around each API call: Finder::new, FinderRev::new, FinderBuilder (Prefilter::None, build_reverse, custom "
+                "ranker), find, rfind, memmem::find/rfind, complete find_iter/rfind_iter traversals (top-level and finder), as_ref+clone, memchr/2/3, "
+                "memrchr/2/3 and their iterators (next, next_back, count) - 27 calls per generated (needle, haystack) from the C03 / prefilter-phase / "
+                "short-fallback generators, plus the very first search of the fresh process (CPU detection). The count must stay 0. Positive control per run: "
+                "into_owned and shiftor::Finder::new must register >= 1 allocation, otherwise the run is inconclusive. Non-trivial: needle >= 2 and haystack >= 16.",
+        "stages": [
+            {"name": "alloc", "cmd": "alloc", "configs": cfgs(NATIVE + EMU), "shards": shards(16, 16, 8, 8), "args": ["--scale", "5"]},
+        ],
     },
     "C18": {
         "rule": "Enumerated: lengths 0..=96 (160) x {equal, one flipped bit (0x01/0x80/0x10) at every position, two differences} x 8x8 (16x16) "
